@@ -28,6 +28,7 @@ def main():
     ap.add_argument("--base", default="HEAD")
     ap.add_argument("--seed", default="1")
     ap.add_argument("--keep", action="store_true")
+    ap.add_argument("--save", help="copy the first replay of each catching check to <dir>/<ID>/<name>.json")
     ap.add_argument("--expect-silent", action="store_true", help="the change is benign: checks must stay silent")
     a = ap.parse_args()
 
@@ -82,6 +83,9 @@ def main():
                         rp = l.split("replay=")[-1].strip()
                         try:
                             import json
+                            if a.save:
+                                os.makedirs(os.path.join(a.save, cid), exist_ok=True)
+                                shutil.copy(rp, os.path.join(a.save, cid, a.name + ".json"))
                             v = json.load(open(rp)).get("violation") or {}
                             print("    signature:", v.get("signature"), "|", (v.get("detail") or "")[:300])
                         except Exception as e:
